@@ -75,15 +75,22 @@ Theorem C30_hash_eq_refuted : exists o u fs, cy_hash true o u fs = HErr /\ py_ha
 Proof. exact hash_eq_refuted. Qed.
 Print Assumptions C30_hash_eq_refuted.
 
+(* full statement, true only for the repaired loop (mx = true) *)
+Theorem C30_match_args_eq : forall o u fs,
+  no_field_kw fs -> cy_match_args true o u fs = py_match_args o u fs.
+Proof. exact match_args_eq. Qed.
+Print Assumptions C30_match_args_eq.
+
+(* the code as it is (mx = false) *)
 Theorem C30_match_args_eq_partial : forall o u fs,
   no_field_kw fs -> (o_kw_only o = true \/ forall f, In f fs -> f_init f = true) ->
-  cy_match_args o u fs = py_match_args o u fs.
+  cy_match_args false o u fs = py_match_args o u fs.
 Proof. exact match_args_eq_partial. Qed.
 Print Assumptions C30_match_args_eq_partial.
 
-(* full statement (false): forall o u fs, no_field_kw fs -> cy_match_args o u fs = py_match_args o u fs *)
+(* full statement (false): forall o u fs, no_field_kw fs -> cy_match_args false o u fs = py_match_args o u fs *)
 Theorem C30_match_args_init_false_refuted : exists o u fs,
-  no_field_kw fs /\ cy_match_args o u fs = Some [1%N; 2%N] /\ py_match_args o u fs = Some [1%N].
+  no_field_kw fs /\ cy_match_args false o u fs = Some [1%N; 2%N] /\ py_match_args o u fs = Some [1%N].
 Proof. exact match_args_init_false_refuted. Qed.
 Print Assumptions C30_match_args_init_false_refuted.
 
@@ -113,13 +120,13 @@ Print Assumptions C30_rejected_order_without_eq_refuted.
 
 (* every decision at once on the complement of the finding classes *)
 Theorem C30_decisions_eq_partial : forall o u fs,
-  domain_ok o u fs -> cy_decide true o u fs = py_decide o u fs.
+  domain_ok o u fs -> cy_decide true true o u fs = py_decide o u fs.
 Proof. exact decisions_eq_partial. Qed.
 Print Assumptions C30_decisions_eq_partial.
 
 (* the same for the code as it is, on the further complement of the hash-field finding *)
 Theorem C30_decisions_eq_asis_partial : forall o u fs,
-  domain_ok o u fs -> hash_none_is_compared fs -> cy_decide false o u fs = py_decide o u fs.
+  domain_ok o u fs -> hash_none_is_compared fs -> cy_decide false false o u fs = py_decide o u fs.
 Proof. exact decisions_eq_asis_partial. Qed.
 Print Assumptions C30_decisions_eq_asis_partial.
 
